@@ -82,31 +82,31 @@ Example C05_default_layer_last_is_loaded_first :
                map l_name (f_layers toy_sig f') = [s "foreground"; s "bg"].
 Proof. eexists. eexists. vm_compute. repeat split; reflexivity. Qed.
 
-(** ---------- with the REAL glif codec plugged in (Model/FontReal.v) ----------
-    Remaining hypotheses: [base_laws B] (the laws of every part other than the glif codec — see
+(** ---------- with the REAL part models (glif codec, font info, groups / kerning maps and validator) plugged in (Model/FontReal.v) ----------
+    Remaining hypotheses: [base_laws B PG PK] (the laws of every part other than the glif codec — see
     Props/C01.v, C01_roundtrip_real, for which theorem discharges which), [L1_glif] (the library
     hypotheses of C02), and in [font_valid] the glyph domain [wf_glyph] (lib-free glyphs). *)
-Theorem C05_norad_writes_spec_real : forall pf ff ff3 fi fh (B : sig),
-  L1_glif pf ff ff3 fh -> base_laws B ->
-  forall o (f : font (real_sig pf ff ff3 fi fh B)),
-  font_valid (real_sig pf ff ff3 fi fh B) f ->
-  exists t, save (real_sig pf ff ff3 fi fh B) o f = Ok t /\
-            spec_write (real_sig pf ff ff3 fi fh B) norad_choices o f = Some t.
+Theorem C05_norad_writes_spec_real : forall pf ff ff3 fi fh (B : sig) PG PK,
+  L1_glif pf ff ff3 fh -> base_laws B PG PK ->
+  forall o (f : font (real_sig pf ff ff3 fi fh B PG PK)),
+  font_valid (real_sig pf ff ff3 fi fh B PG PK) f ->
+  exists t, save (real_sig pf ff ff3 fi fh B PG PK) o f = Ok t /\
+            spec_write (real_sig pf ff ff3 fi fh B PG PK) norad_choices o f = Some t.
 Proof.
-  intros pf ff ff3 fi fh B L HB o f Hv.
-  destruct (roundtrip_real pf ff ff3 fi fh B L HB o f Hv) as (t & H1 & H2 & _). eauto.
+  intros pf ff ff3 fi fh B PG PK L HB o f Hv.
+  destruct (roundtrip_real pf ff ff3 fi fh B PG PK L HB o f Hv) as (t & H1 & H2 & _). eauto.
 Qed.
-Theorem C05_norad_reads_spec_real : forall pf ff ff3 fi fh (B : sig),
-  L1_glif pf ff ff3 fh -> base_laws B ->
-  forall c o (f : font (real_sig pf ff ff3 fi fh B)),
-  font_valid (real_sig pf ff ff3 fi fh B) f ->
-  exists t, spec_write (real_sig pf ff ff3 fi fh B) c o f = Some t /\
-            exists f', load (real_sig pf ff ff3 fi fh B) t = Ok f' /\ font_equiv (real_sig pf ff ff3 fi fh B) f f'.
+Theorem C05_norad_reads_spec_real : forall pf ff ff3 fi fh (B : sig) PG PK,
+  L1_glif pf ff ff3 fh -> base_laws B PG PK ->
+  forall c o (f : font (real_sig pf ff ff3 fi fh B PG PK)),
+  font_valid (real_sig pf ff ff3 fi fh B PG PK) f ->
+  exists t, spec_write (real_sig pf ff ff3 fi fh B PG PK) c o f = Some t /\
+            exists f', load (real_sig pf ff ff3 fi fh B PG PK) t = Ok f' /\ font_equiv (real_sig pf ff ff3 fi fh B PG PK) f f'.
 Proof. exact reads_spec_real. Qed.
-Theorem C05_spec_read_spec_write_real : forall pf ff ff3 fi fh (B : sig),
-  L1_glif pf ff ff3 fh -> base_laws B ->
-  forall c o (f : font (real_sig pf ff ff3 fi fh B)),
-  font_valid (real_sig pf ff ff3 fi fh B) f ->
-  exists t, spec_write (real_sig pf ff ff3 fi fh B) c o f = Some t /\
-            exists f', spec_read (real_sig pf ff ff3 fi fh B) t = Some f' /\ font_equiv (real_sig pf ff ff3 fi fh B) f f'.
+Theorem C05_spec_read_spec_write_real : forall pf ff ff3 fi fh (B : sig) PG PK,
+  L1_glif pf ff ff3 fh -> base_laws B PG PK ->
+  forall c o (f : font (real_sig pf ff ff3 fi fh B PG PK)),
+  font_valid (real_sig pf ff ff3 fi fh B PG PK) f ->
+  exists t, spec_write (real_sig pf ff ff3 fi fh B PG PK) c o f = Some t /\
+            exists f', spec_read (real_sig pf ff ff3 fi fh B PG PK) t = Some f' /\ font_equiv (real_sig pf ff ff3 fi fh B PG PK) f f'.
 Proof. exact spec_reader_real. Qed.
